@@ -53,7 +53,7 @@ def _oracle(n, tl, finals):
     return sorted(reach - set(finals))
 
 
-@harness("rdfs.search", props=["C07", "C01", "C06"], jobs=_jobs,
+@harness("rdfs.search", props=["C07"], jobs=_jobs,
          covers=["cycle", "self_loop", "parallel", "dup_final", "unreachable", "two_routes"],
          bounds="every graph with n<=3 states and out-degree <=2 (n<=2: <=3) [thorough: n=3 degree<=3, n=4 degree<=2], "
                 "every final list of length 1..3 (n=4: 1..2) in any order with repetitions; labels a mix of actions and probabilities",
@@ -97,7 +97,7 @@ def _sentinel_jobs(tier, seed):
             dict(shape="dense_back", size=300)]
 
 
-@harness("rdfs.sentinel", props=["C07", "C06"], jobs=_sentinel_jobs, sentinel=True,
+@harness("rdfs.sentinel", props=["C07"], jobs=_sentinel_jobs, sentinel=True,
          bounds="concrete executions: 5000-state chain, 2000-leaf star, game C of a 3x400 board, 300-state graph with all back edges",
          desc="SENTINEL (concrete run, not a solver verdict): large/deep graphs return the right set without RecursionError "
               "under the interpreter's default recursion limit")
